@@ -21,8 +21,9 @@ var props = map[string]propCfg{
 	"C13": {
 		Scenarios: []scenCfg{
 			{Name: "loop", Quick: 3000, Thorough: 200000, Batch: 100},
+			{Name: "filter", Quick: 1200, Thorough: 80000, Batch: 100},
 		},
-		Rule: "one evaluation = one simulated run of 1-3 loader tasks pushing through the real ChunkList while a coordinator task snapshots and issues Matcher.Reset requests to the real Matcher.Loop (1..32 partitions) under a seeded schedule; " +
+		Rule: "filter: whole simulated `fzf --filter` processes (real reader, poller, chunk list, matcher). loop: one evaluation = one simulated run of 1-3 loader tasks pushing through the real ChunkList while a coordinator task snapshots and issues Matcher.Reset requests to the real Matcher.Loop (1..32 partitions) under a seeded schedule; " +
 			"distinct = distinct event-log hash (schedule trace + request/publish history); non-trivial = at least one preemption (a runnable goroutine was passed over for another) happened in the run",
 		RealStub: map[string][]string{
 			"real": {"ChunkList", "ChunkCache", "Pattern", "Matcher.Loop/scan", "Merger", "util.EventBox", "util.AtomicBool"},
@@ -47,8 +48,9 @@ var props = map[string]propCfg{
 		Scenarios: []scenCfg{
 			{Name: "purity", Quick: 4000, Thorough: 300000, Batch: 200},
 			{Name: "scan", Quick: 1500, Thorough: 100000, Batch: 100},
+			{Name: "filter", Quick: 1200, Thorough: 80000, Batch: 100},
 		},
-		Rule: "purity: one evaluation = a seeded sequence of MatchItem calls (items in seeded order on seeded workers) on scratch slabs with adversarial stale contents, each compared with an isolated evaluation (fresh item, nil slab); " +
+		Rule: "filter: whole simulated filter processes on a list and on a seeded sub-list (output of the sub-list must be the full output restricted to it), order compared with rank keys computed from accurate match offsets. purity: one evaluation = a seeded sequence of MatchItem calls (items in seeded order on seeded workers) on scratch slabs with adversarial stale contents, each compared with an isolated evaluation (fresh item, nil slab); " +
 			"scan: partitioned scans with pre-poisoned per-partition slabs, rank keys compared per item; non-trivial = at least one item matched; distinct = distinct outcome signature / event-log hash",
 		RealStub: map[string][]string{
 			"real": {"Pattern.MatchItem", "algo.* matchers", "util.Slab", "Matcher.scan", "buildResult"},
@@ -67,5 +69,16 @@ var props = map[string]propCfg{
 			"stub": {"stdin pipe", "clock", "goroutine scheduler"},
 		},
 		QuickSecs: 100, ThorSecs: 1500,
+	},
+	"C18": {
+		Scenarios: []scenCfg{
+			{Name: "hist", Quick: 20000, Thorough: 1500000, Batch: 1000},
+		},
+		Rule: "hist: one evaluation = a seeded sequence of sessions over one history file (initial content missing/empty/with or without trailing newline/longer than the limit), each session = --history/--history-size parsed by the real option parser in either order, then previous/next/edit steps and at most one submit, compared step by step and byte by byte with a list-of-strings model; non-trivial = at least one non-empty query was submitted",
+		RealStub: map[string][]string{
+			"real": {"History", "ParseOptions (--history, --history-size)", "file system (per-run temp dir)"},
+			"stub": {"terminal actions prev-history/next-history/accept are replayed by the harness at object level (whole sessions run in the sys scenarios)"},
+		},
+		QuickSecs: 100, ThorSecs: 1200,
 	},
 }
